@@ -2,7 +2,7 @@
    Model: Schc.cm_compress / cm_decompress (manager.py), Schc.schc_compress / schc_decompress
    (/repo/microschc.py).  Only statements; proofs in theories/SchcRules.v. *)
 From Coq Require Import ZArith List Bool.
-From MS Require Import PyBase Bits Schc SchcSpec SchcRules EndToEnd Buffer BufferAbs Compute SchcBytes SchcRefine ParserBytes ParserRefine ComputeBytes ComputeRefine ManagerBytes ManagerRefine.
+From MS Require Import PyBase Bits Schc SchcSpec SchcRules EndToEnd Buffer BufferAbs Compute SchcBytes SchcRefine ParserBytes ParserRefine ComputeBytes ComputeRefine ManagerBytes ManagerRefine SchcRoundtrip FrontRoundtrip.
 Import ListNotations.
 Open Scope Z_scope.
 
@@ -72,6 +72,30 @@ Theorem c15_front_decompress_bytes bctxs ctxs packet : Forall2 ctx_rules_rel bct
   same_outcome bval_rel (bschc_decompress bctxs packet) (schc_decompress compute_functions ctxs (abs packet)).
 Proof. exact (bschc_decompress_refines bctxs ctxs packet). Qed.
 
+(* "what it compresses it also decompresses back": when the contexts before the one that takes the packet claim no prefix of the SCHC
+   packet (rule ids prefix-free across the contexts of an interface) and that context's manager round-trips (C01) *)
+Theorem c15_front_roundtrip ct pre c post p s :
+  Forall (fun c' => falls_through (cm_compress (ctx_parse c') (ctx_rules c') p Up FIRST) = true) pre ->
+  cm_compress (ctx_parse c) (ctx_rules c) p Up FIRST = Ok s ->
+  Forall (fun c' => forall r, In r (ctx_rules c') -> is_prefix (rule_id r) s = false) pre ->
+  cm_decompress ct (ctx_rules c) s (Some Up) = Ok p ->
+  schc_compress (pre ++ c :: post) p = Ok s /\ schc_decompress ct (pre ++ c :: post) s = Ok p.
+Proof. exact (front_roundtrip ct pre c post p s). Qed.
+Theorem c15_front_roundtrip_c01 ct pre c post p fs pl :
+  Forall (fun c' => falls_through (cm_compress (ctx_parse c') (ctx_rules c') p Up FIRST) = true) pre ->
+  ctx_parse c p = Ok (fs, pl) -> concat (map f_val fs) ++ pl = p ->
+  prefix_free (ctx_rules c) -> forallb rule_typed (ctx_rules c) = true ->
+  (forall r, In r (ctx_rules c) -> spec_rule_applies (mkpdesc Up fs pl) r = true ->
+     (rule_nature r = NoCompression /\ rule_fds r = []) \/
+     (rule_ok_dec ct Up (mkpdesc Up fs pl) r /\
+      let rfs := select_fds (Some Up) (rule_fds r) in
+      ce_sorted (centries_of ct 0 rfs) = true /\ (length (centries_of ct 0 rfs) < 64)%nat /\
+      run_computes (centries_of ct 0 rfs) (combine (map r_id rfs) (map2 pre_value rfs fs) ++ [(payload_fid, pl)])
+        = Ok (combine (map r_id rfs) (map f_val fs) ++ [(payload_fid, pl)]))) ->
+  forall s, cm_compress (ctx_parse c) (ctx_rules c) p Up FIRST = Ok s ->
+  Forall (fun c' => forall r, In r (ctx_rules c') -> is_prefix (rule_id r) s = false) pre ->
+  schc_compress (pre ++ c :: post) p = Ok s /\ schc_decompress ct (pre ++ c :: post) s = Ok p.
+Proof. exact (front_roundtrip_c01 ct pre c post p fs pl). Qed.
 Print Assumptions c15_nomatch_first.
 Print Assumptions c15_nomatch_best.
 Print Assumptions c15_unparsable.
@@ -86,3 +110,5 @@ Print Assumptions c15_nomatch_bytes.
 Print Assumptions c15_noid_bytes.
 Print Assumptions c15_front_compress_bytes.
 Print Assumptions c15_front_decompress_bytes.
+Print Assumptions c15_front_roundtrip.
+Print Assumptions c15_front_roundtrip_c01.
